@@ -1,5 +1,6 @@
 import B2Z.Model.Checks
 import B2Z.Gen.Reserved
+import B2Z.Gen.Checks
 import B2Z.Proofs.Checks
 /-! # C13 — unconvertible input sets are rejected loudly, never converted wrongly
 
@@ -81,6 +82,33 @@ theorem C13_file_interleave_counterexample :
     accepts [⟨0, 100, 5000⟩, ⟨0, 2000, 3000⟩] = false ∧
     accepts [⟨0, 100, 1000⟩, ⟨0, 4000, 5000⟩, ⟨0, 2000, 3000⟩] = true := by
   decide
+
+/-- the model's walk over adjacent pairs, written with the pair test regenerated from the source -/
+def noOverlapGen : List Part → Bool
+  | [] => true
+  | [_] => true
+  | a :: b :: rest => !(Gen.overlapRejects (a.contig == b.contig) a.stop b.start) && noOverlapGen (b :: rest)
+
+/-- **bridging lemma**: `check_overlapping_partitions` as it stands in the source — the pair test
+    (`Gen.overlapRejects`), a loop over all adjacent pairs `(i-1, i)` with no early exit, guarded by contig
+    equality, called unconditionally by `finalise` — is `noOverlap`; and the partitions are sorted by
+    `(header contig index, region start)` -/
+theorem C13_gen_overlap_check (ps : List Part) :
+    noOverlapGen ps = noOverlap ps ∧
+    Gen.overlapLoop = ["i", "range(1, len(partitions))", "partitions[i - 1].region", "partitions[i].region"] ∧
+    Gen.overlapLoopEscapes = [] ∧
+    Gen.overlapGuard = "prev_region.contig == current_region.contig" ∧
+    Gen.overlapCheckCalls = ["Expr:check_overlapping_partitions(self.metadata.partitions)"] ∧
+    Gen.partitionSortKey = "lambda x: (contig_index_map[x.region.contig], x.region.start)" := by
+  refine ⟨?_, by decide, by decide, by decide, by decide, by decide⟩
+  induction ps with
+  | nil => rfl
+  | cons a rest ih =>
+    cases rest with
+    | nil => rfl
+    | cons b rest' =>
+      simp only [noOverlapGen, noOverlap, Gen.overlapRejects, ih]
+      by_cases hc : (a.contig == b.contig) = true <;> by_cases hs : a.stop < b.start <;> simp [hc, hs] <;> omega
 
 example : sortParts [⟨1, 5, 9⟩, ⟨0, 7, 8⟩, ⟨0, 1, 3⟩] = [⟨0, 1, 3⟩, ⟨0, 7, 8⟩, ⟨1, 5, 9⟩] := by decide
 
